@@ -219,6 +219,44 @@ fn handbuilt(rep: &Report) -> Result<(), Violation> {
     Ok(())
 }
 
+/// Histories whose *change metadata* (messages, actors, deps, times, extra bytes) is large enough
+/// for the bundle writer to DEFLATE those columns too (the explorer's histories only ever push the
+/// op columns of B3 over the threshold).
+fn big_metadata_bundles(rep: &Report) -> Result<(), Violation> {
+    use automerge::transaction::{CommitOptions, Transactable};
+    use automerge::ROOT;
+    let mk = |n: usize, actors: usize, msg_len: usize| -> Automerge {
+        let mut docs: Vec<Automerge> = (0..actors).map(|a| Automerge::new().with_actor(ActorId::from(vec![0x10 + a as u8, 0xaa]))).collect();
+        for i in 0..n {
+            let a = i % actors;
+            if i % 5 == 4 && actors > 1 {
+                let mut other = docs[(a + 1) % actors].clone();
+                let _ = docs[a].merge(&mut other);
+            }
+            let mut tx = docs[a].transaction();
+            tx.put(ROOT, format!("k{}", i % 7), i as i64).unwrap();
+            let msg: String = (0..msg_len).map(|j| char::from(b'a' + ((i * 7 + j) % 26) as u8)).collect();
+            tx.commit_with(CommitOptions::default().with_message(msg).with_time((i as i64 * 977) % 100_000 - 50_000));
+        }
+        let mut d = docs[0].clone();
+        for o in docs.iter().skip(1) {
+            let _ = d.merge(&mut o.clone());
+        }
+        d
+    };
+    for (n, actors, msg_len) in [(40usize, 1usize, 30usize), (60, 3, 12), (300, 3, 0), (12, 2, 300)] {
+        let d = mk(n, actors, msg_len);
+        let info = DocInfo { enc: d.text_encoding(), base_hashes: Default::default(), theme: "big-metadata".into(), kind: "replica", big: true };
+        bundle_checks(&d, &info, rep).map_err(|mut v| {
+            v.site = format!("{}:big-metadata", v.site);
+            v.case = serde_json::json!({"explorer": "big_metadata_bundles", "changes": n, "actors": actors, "message_len": msg_len});
+            v
+        })?;
+        rep.count("big_metadata_histories", 1);
+    }
+    Ok(())
+}
+
 pub fn run(args: &Args) -> i32 {
     let oracle = move |d: &Automerge, info: &DocInfo, rep: &Report| -> Result<(), Violation> {
         for c in d.get_changes(&[]).iter() {
@@ -230,9 +268,15 @@ pub fn run(args: &Args) -> i32 {
     let pre = std::sync::Once::new();
     let oracle2 = move |d: &Automerge, info: &DocInfo, rep: &Report| -> Result<(), Violation> {
         let mut r = Ok(());
-        pre.call_once(|| {
-            r = handbuilt(rep);
-        });
+        let mut once = || {
+            r = handbuilt(rep).and_then(|_| crate::util::guard(|| big_metadata_bundles(rep)).unwrap_or_else(|p| Err(Violation::new("panic", p.location, format!("big-metadata bundles: {}", p.message)))));
+        };
+        if crate::util::replaying() {
+            // a replay re-runs the document-independent part too (it is deterministic)
+            once();
+        } else {
+            pre.call_once(once);
+        }
         r?;
         oracle(d, info, rep)
     };
@@ -247,7 +291,7 @@ pub fn run(args: &Args) -> i32 {
             ..Default::default()
         },
         Arc::new(oracle2),
-        "every change of every distinct document reached by the history explorer (incl. B3 whose first change is DEFLATE-compressed): from_bytes(raw_bytes) and from_bytes(bytes()) give an equal change with the same hash, Change::from(decode()) re-encodes to byte-identical raw bytes, decode is stable; every non-empty subset of the new changes (<=5) and the whole history bundled: to_changes returns byte-identical changes, the bundle bytes re-parse, load_incremental(bundle) into an empty document equals apply_changes (reads and missing deps); plus ~3.6k hand-built expanded changes: every action x scalar extremes x object/key/pred shapes x message/extra_bytes/deps/time variants must encode, decode back equal and reload",
+        "every change of every distinct document reached by the history explorer (incl. B3 whose first change is DEFLATE-compressed): from_bytes(raw_bytes) and from_bytes(bytes()) give an equal change with the same hash, Change::from(decode()) re-encodes to byte-identical raw bytes, decode is stable; every non-empty subset of the new changes (<=5) and the whole history bundled: to_changes returns byte-identical changes, the bundle bytes re-parse, load_incremental(bundle) into an empty document equals apply_changes (reads and missing deps); plus four histories of 12-300 changes whose change-metadata columns (messages, times, deps, actors) exceed the DEFLATE threshold of the bundle writer, with the same bundle checks; plus ~3.6k hand-built expanded changes: every action x scalar extremes x object/key/pred shapes x message/extra_bytes/deps/time variants must encode, decode back equal and reload",
         &["hand-built changes stay within documented ranges (op counters <= u32::MAX, sorted preds)"],
     )
 }
